@@ -204,11 +204,6 @@ class G:
             v = self.pick([2 ** 31 - 1, 2 ** 31, 2 ** 31 + 1, 2 ** 32, 2 ** 32 + 1, -(2 ** 31), -(2 ** 31) - 1, 2 ** 40 + 3, 2 ** 61, 2 ** 62 - 1, -(2 ** 62) + 1])
             if abs(v) >= self.p.window:
                 v = 12345
-        if not self.p.extreme and not self.p.java and self.p.window >= 2 ** 62 and self.chance(4):
-            # word-size boundaries and the literals beyond 2^62 (legal machine integers; arithmetic that would leave the +-2^62 window is
-            # discarded by the evaluator, so these mostly reach output, comparison and storage unchanged)
-            v = self.pick([2 ** 31 - 1, 2 ** 31, 2 ** 31 + 1, 2 ** 32, 2 ** 32 + 1, -(2 ** 31), -(2 ** 31) - 1, 2 ** 40 + 3, 2 ** 61, 2 ** 62 - 1, -(2 ** 62) + 1,
-                           2 ** 62, 2 ** 62 + 1, 4999999999999999999, 2 ** 63 - 1, -(2 ** 62), -(2 ** 63) + 1])
         form = "dec"
         if v >= 0 and self.chance(12):
             form = self.pick(["r2", "r8", "r16", "r36"])
@@ -229,9 +224,6 @@ class G:
                 v = v * self.int(1, 10 ** 9) + self.int(0, 999)
         if self.p.extreme and self.chance(20):
             v = self.d(st.integers(10 ** 380, 10 ** 400))
-        elif self.has("bigz") and self.chance(6):
-            # single-word factors whose products straddle the double-word boundary (fast paths of the big-integer routines)
-            v = self.pick([2 ** 31 - 1, 2 ** 31, 2 ** 32 - 1, 2 ** 32, 3037000499, 3037000500, 4000000000, 2 ** 30 + 7]) * self.pick([1, 1, -1])
         form = "dec"
         if v >= 0 and self.chance(8):
             form = self.pick(["r2", "r16", "r36"])
